@@ -573,6 +573,15 @@ func genOpts(w *bufio.Writer, r *rng, id, size int) {
 		callres = "panic"
 	}
 	fmt.Fprintf(w, "callres %s\n", callres)
+	// afterwards a use without call options: the defaults given at construction, and nothing an earlier call brought
+	if callres == "ok" || callres == "err" {
+		var d4 am.VerifBuilderDump
+		if recovered(func() { d4 = am.VerifBuilder(target) }) {
+			fmt.Fprintf(w, "impl4 panic\n")
+		} else {
+			fmt.Fprintln(w, strings.Replace(dumpBuilder(d4), "impl ", "impl4 ", 1))
+		}
+	}
 	// the same options in a random order (judged only when all keys are distinct)
 	p := r.perm(len(specs))
 	var shuffled []am.Arg
